@@ -25,7 +25,7 @@ BANK = "AntiKt4"
 RULE = (
     "cells = {+,-,*,/,%,**} x ordered pairs of operand kinds {int literal, int count, declared float, double, bool} (% only on "
     "non-negative integer kinds: '%' with a floating operand is a recorded finding), unary {+,-,not} x kinds, six comparisons x pairs, "
-    "conditional x pairs, every two binary operators nested either way + unary minus / ** / not against them (double and positive-int operands), Sum/Count/Aggregate(int and float seeds)/Max>=0/Min<=0 over int, float and double sequences - all enumerated in "
+    "conditional x pairs, every two binary operators nested either way + unary minus / ** / not against them (double and positive-int operands), Sum/Count/Aggregate(int and float seeds)/Max / Min (values of any sign) over int, float and double sequences - all enumerated in "
     "every run; Hypothesis draws the events (values incl. negatives, zeros, ties, odd/even counts). non-trivial = a cell whose reference "
     "values over the drawn rows are not all equal or contain a non-integer; distinct by (cell, values)."
 )
@@ -143,6 +143,10 @@ def build_cells():
         cells.append((f"Count:{t}:{s[:16]}", f"{s}.Count()", "int"))
         cells.append((f"Max0:{t}:{s[:16]}", f"{s}.Select(lambda v: abs(v)).Max()", "double"))
         cells.append((f"Min0:{t}:{s[:16]}", f"{s}.Select(lambda v: 0 - abs(v)).Min()", "double"))
+        # ... and of values of any sign (the maximum of negative numbers is negative, the minimum of positive ones positive)
+        cells.append((f"Max:{t}:{s[:16]}", f"{s}.Select(lambda v: v - 70).Max()", "double"))
+        cells.append((f"Min:{t}:{s[:16]}", f"{s}.Select(lambda v: abs(v) + 3).Min()", "double"))
+        cells.append((f"MaxAny:{t}:{s[:16]}", f"{s}.Max()", "double"))
         for seed, ts in (("0", "int"), ("10", "int"), ("0.5", "double"), ("2.0", "double")):
             cells.append((f"Agg+:{t}:{seed}:{s[:16]}", f"{s}.Aggregate({seed}, lambda acc, v: acc + v)", wider(ts, t)))
             cells.append((f"Agg*:{t}:{seed}:{s[:16]}", f"{s}.Aggregate({seed}, lambda acc, v: acc * 2 + v)", wider(ts, t)))
